@@ -19,6 +19,9 @@ Busy == [exists |-> TRUE, paused |-> FALSE, readonly |-> FALSE, len |-> 1, plain
 
 \* policies: empty, full, full minus one entry, a single entry, everything for the other clients only
 E0 == {e \in Entries : e[1] \in PolicyClients}
+SysClass == [exists |-> TRUE, paused |-> FALSE, readonly |-> FALSE, len |-> 1, plain |-> 0, gsub |-> NoSub]
+\* calls that would damage the cursors stream for the rest of the run are only made when they must be refused
+HarmlessOnSys == {"FetchPartitionMetadata", "FetchCursor", "SetCursor", "Subscribe", "CreateStream", "DeleteStream"}
 PolicyChoices == {{}, Entries} \cup {Entries \ {e} : e \in E0} \cup {{e} : e \in E0}
                  \cup {{e \in Entries : e[1] \notin PolicyClients}}
 
@@ -30,6 +33,7 @@ CallChoices ==
      /\ (~c.grp => c.epoch = 0)
      /\ (c.m # "SetStreamReadonly" => ~c.ro)
      /\ (c.m = "FetchMetadata" => c.s = "s1")
+     /\ (c.m = "PublishToSubject" => c.s # CursorsStream)
      /\ (c.m \in GroupMethods => c.s = "s2")}
 
 EntryOf(call) == <<call.c, ResourceOf(call), ActionOf(call.m)>>
@@ -37,8 +41,10 @@ Toggle(p, e) == IF e \in p THEN p \ {e} ELSE p \cup {e}
 
 MCInit ==
   /\ policy \in PolicyChoices /\ policyFile = policy
-  /\ st \in {f \in [Streams -> StreamClasses \cup {Busy}] : f["s2"] = Busy /\ f["s1"] \in StreamClasses}
-  /\ cursors \in {f \in [Streams -> {-1, 0}] : f["s2"] = 0}
+  /\ st \in {f \in [Streams -> StreamClasses \cup {Busy, SysClass}] :
+               f["s2"] = Busy /\ f["s1"] \in StreamClasses /\ f[CursorsStream] = SysClass}
+  /\ cursors \in {f \in [Streams -> {-1, 0}] : f["s2"] = 0 /\ f[CursorsStream] = -1}
+  /\ fileOK = TRUE
   /\ members \in {{"owner"}, {"owner"} \cup Callers}
   /\ sessions = {}
   /\ enforcer \in BOOLEAN /\ (~enforcer => policy = {})     \* no enforcer: nothing is loaded
@@ -49,12 +55,24 @@ MCCall(call) ==
   /\ \/ phase = 0 /\ phase' = 1
      \/ phase = 2 /\ call = last.call /\ phase' = 5      \* edited, not yet reloaded: the loaded policy still decides
      \/ phase = 3 /\ call = last.call /\ phase' = 4
+  /\ (call.s = CursorsStream) => (call.m \in HarmlessOnSys \/ Unauthorised(EffPolicy, call))
   /\ DoCall(call)
   /\ last' = [a |-> "Call", call |-> call]
 
 \* DeepReload = FALSE: the edit / reload / call-again tail only from the empty and the full policy
+\* the file disappears, a reload fails, then the corrected file is written and reloaded
+MCBreak ==
+  /\ phase = 1 /\ phase' = 6
+  /\ enforcer /\ (DeepReload \/ policy = {} \/ policy = Entries)
+  /\ DoBreakFile
+  /\ last' = [a |-> "BreakFile", call |-> last.call]
+MCReloadFail ==
+  /\ phase = 6 /\ phase' = 7
+  /\ DoReload
+  /\ last' = [a |-> "Reload", call |-> last.call]
+
 MCEdit ==
-  /\ phase = 1 /\ phase' = 2
+  /\ phase \in {1, 7} /\ phase' = 2
   /\ enforcer
   /\ DeepReload \/ policy = {} \/ policy = Entries
   /\ DoEditPolicy(Toggle(policyFile, EntryOf(last.call)))
@@ -69,6 +87,8 @@ MCNext ==
   \/ (phase \in {0, 2, 3}) /\ \E call \in CallChoices : MCCall(call)
   \/ MCEdit
   \/ MCReload
+  \/ MCBreak
+  \/ MCReloadFail
 
 MCSpec == MCInit /\ [][MCNext]_mcvars
 
@@ -80,6 +100,7 @@ StepOK ==
   CASE a.a = "Call" -> Tainted(a.call) \/ P_Call(a.call)
     [] a.a = "EditPolicy" -> P_Edit
     [] a.a = "Reload" -> P_Reload
+    [] a.a = "BreakFile" -> P_Edit
     [] OTHER -> TRUE
 StepsOK == [][StepOK]_mcvars
 =============================================================================
